@@ -15,8 +15,11 @@ META = dict(
          "totals, mempool sequence number and update counter unchanged, and the submission must return the same verdict.",
     note="EXACT for verdict equality and side-effect freedom. Where the node's verdict differs from the model's, the node is asked for both verdicts "
          "from that state (test-accept then submit): only a disagreement between the two, or a state change by the test-accept, is a violation - a "
-         "rule change that affects both alike is another property's business. With an in-pool ancestor past its expiry, submit answers 'mempool full' "
-         "where test-accept answers ok although the pool is not full: the model reproduces this and the property's 'mempool not full' clause is read to cover it.",
+         "rule change that affects both alike is another property's business. KNOWN FINDING (key testaccept-ignores-expiry-of-ancestor): with an "
+         "in-pool ancestor past -mempoolexpiry, test-accept answers ok while the submission answers 'mempool full' (LimitMempoolSize expires the "
+         "ancestor and the new transaction goes with it) although the pool is far from its limit. The model reproduces the node here (so the "
+         "model, too, violates C28 as stated: Mempool!TestAcceptFaithfulAsStated); every such transition of the bounded model is confirmed on the "
+         "node by asking it for both verdicts from that state and reported under that one key. Only a really full pool is exempt.",
     technique="TLA+ spec Mempool + TLC exhaustive; path cover replayed on a real node; verdict twins re-asked on the node on deviation",
 )
 
@@ -29,7 +32,7 @@ def run(ctx):
     binary = ctx.build_adapter("mempool")
     nontrivial = lambda p: any(s["a"][0] == "test" for s in p["steps"])
     if ctx.tier == "quick":
-        plan = [("rbf", "MC_rbf_c28q.cfg", "MU_std.cfg"), ("chain", "MC_chain_c28q.cfg", "MU_std.cfg")]
+        plan = [("rbf", "MC_rbf_c28q.cfg", "MU_std.cfg"), ("chain", "MC_chain_c28q.cfg", "MU_std.cfg"), ("chain", "MC_chain_exp_q.cfg", "MU_std.cfg")]
     else:
         plan = [("rbf", "MC_rbf_t.cfg", "MU_std.cfg"), ("rbf", "MC_rbf0_q.cfg", "MU_incr0.cfg"), ("chain", "MC_chain_c28t.cfg", "MU_std.cfg"), ("chain", "MC_chain_exp_t.cfg", "MU_std.cfg")]
     per = {}
@@ -37,6 +40,8 @@ def run(ctx):
         st = _mempool.run_scenario(ctx, binary, "C28", uni, cfg, mu, nontrivial=nontrivial)
         for k, v in st["per"].items():
             per[k] = per.get(k, 0) + v
+        # C28 as stated exempts only a full mempool: submissions the model turns into "mempool full" without any trim are put to the node
+        _mempool.confirm_expiry_finding(ctx, binary, st)
     _mempool.need(dict(per=per), [("test", w) for w in ("ok", "insufficient fee", "replacement-failed", "bad-txns-spends-conflicting-tx", "min relay fee not met",
                                                          "bad-txns-inputs-missingorspent", "txn-already-in-mempool", "txn-already-known", "non-final",
                                                          "non-BIP68-final", "bad-txns-premature-spend-of-coinbase", "script-failed")], "C28")
